@@ -468,6 +468,37 @@ func (c08) Run(ctx *Ctx, ci interface{}) (o Outcome) {
 		if c.Cli != "" && o.V == nil && ctx.Diverged == "" && !faulty && c.Weights == nil && ref.sr.RootDone && ref.err == nil && ref.mat != nil {
 			c.runCLI(ctx, &o, ref.mat)
 		}
+		if o.V == nil && ctx.Diverged == "" && !faulty && ref.sr.RootDone && ref.err == nil && ref.model != nil && Mix(c.Seed, "then-refused")%5 == 0 {
+			// the model object that served for this alignment is given one it refuses (a residue outside the distance
+			// code, as the next alignment of a file may hold): the refusal must come back as it does from a fresh
+			// model - not the matrix of the alignment before
+			rows2 := append([]string{}, c.Rows...)
+			i, k := int(Mix(c.Seed, "row")%uint64(n)), int(Mix(c.Seed, "col")%uint64(len(c.Rows[0])))
+			b := []byte(rows2[i])
+			b[k] = "O?*"[Mix(c.Seed, "bad")%3]
+			rows2[i] = string(b)
+			fresh, herr := c.runDist(ctx, rows2, c.Weights, 1, SchedCfg{Seed: 1, Policy: PolFIFO, MaxSteps: budget}, nil, nil)
+			if herr != nil || !fresh.sr.RootDone {
+				return
+			}
+			c.served = ref.model
+			again, _ := c.runDist(ctx, rows2, c.Weights, 1+int(Mix(c.Seed, "cpus2")%3), SchedCfg{Seed: 1, Policy: PolFIFO, MaxSteps: budget}, nil, nil)
+			c.served = nil
+			o.Add("refused_alignment_after_an_accepted_one", 1)
+			if !again.sr.RootDone {
+				o.Fail("hang:reused-model", "model %s: DistMatrix does not return for an alignment with the residue %q when the model has served for another alignment before", c.Model, string(b[k]))
+				return
+			}
+			if (fresh.err != nil) != (again.err != nil) {
+				o.Fail("relation:reused-model:error", "model %s: an alignment with the residue %q gets error %v from a fresh model and %v from the model object that has computed the matrix of another alignment before", c.Model, string(b[k]), fresh.err, again.err)
+				return
+			}
+			if fresh.err == nil {
+				if d := diffBits(fresh.mat, again.mat); d != "" {
+					o.Fail("relation:reused-model", "model %s: the matrix of an alignment depends on whether the model object has served before: %s", c.Model, d)
+				}
+			}
+		}
 	}()
 	if c.RunFirst {
 		run, _ = c.runDist(ctx, c.Rows, c.Weights, c.Cpus, cfg, c.FailDist, c.FailSeq)
